@@ -67,6 +67,29 @@ Section WithTok.
       split; [exact Hin | apply cls_eqb_refl].
   Qed.
 
+  (** per-key reading of a class dictionary: the key's entry when it sits in that class, nothing otherwise *)
+  Lemma jassoc_class_obj e c k :
+    NoDup (keys_e e) ->
+    jassoc k (class_obj e c) =
+    match lookup_e e k with
+    | Some (c', vs) => if cls_eqb c' c then Some (render c vs) else None
+    | None => None
+    end.
+  Proof.
+    unfold class_obj, class_entries, lookup_e, keys_e. generalize (entries e) as l.
+    induction l as [|[k' [c' vs]] l IH]; intros Hnd; [reflexivity|].
+    cbn [map fst] in Hnd. inversion Hnd as [|? ? Hn Hnd']; subst. cbn [assoc filter fst snd]. unfold key_eqb.
+    destruct (str_eqb k k') eqn:Ek.
+    - apply str_eqb_eq in Ek. subst k'. destruct (cls_eqb c' c); [cbn [map jassoc fst snd]; rewrite str_eqb_refl; reflexivity|].
+      destruct (jassoc k _) as [v|] eqn:Ej; [|reflexivity]. exfalso. apply Hn.
+      assert (Hin : In k (map fst (map (fun kv : entry => (fst kv, render c (snd (snd kv)))) (filter (fun kv : entry => cls_eqb (fst (snd kv)) c) l)))).
+      { clear -Ej. induction (map _ _) as [|[k0 v0] d IHd]; [discriminate|]. cbn [jassoc] in Ej. cbn [map fst].
+        destruct (str_eqb k k0) eqn:E; [apply str_eqb_eq in E; left; congruence | right; apply IHd, Ej]. }
+      rewrite map_map in Hin. cbn [fst] in Hin. apply in_map_iff in Hin as [x [Hx Hin]]. apply filter_In in Hin as [Hin _].
+      apply in_map_iff. exists x. split; assumption.
+    - destruct (cls_eqb c' c); [cbn [map jassoc fst snd]; rewrite Ek|]; apply IH, Hnd'.
+  Qed.
+
   Lemma reps_to_content e : reps (to_members e) e.
   Proof.
     constructor.
